@@ -48,7 +48,7 @@ theorem makePoly_isSome {n d r : Nat} (hd0 : 1 < d) (hdodd : d % 2 = 1) (hd : d 
     unfold henselB
     rw [if_neg (by omega), if_neg (by simpa using hsq), chkU_isSome hrr]
     dsimp only
-    rw [if_neg (by omega), hi]
+    rw [if_pos hle, hi]
     dsimp only
     exact chkU_isSome (by
       have : (2 : Nat) ^ 254 < 2 ^ 1024 := by norm_num
